@@ -88,6 +88,9 @@ func (t *TPMSpec) akCert(w *DAW) *x509.Certificate {
 	if w.X5c == "wrongca" {
 		ca = caOther
 	}
+	if w.X5c == "sysca" {
+		ca = caSys
+	}
 	crt, err := ca.Sign(tmpl)
 	if err != nil {
 		panic(err)
@@ -150,6 +153,9 @@ func (t *TPMSpec) statement(w *DAW, extra []byte) map[string]interface{} {
 	ca := caGood
 	if w.X5c == "wrongca" {
 		ca = caOther
+	}
+	if w.X5c == "sysca" {
+		ca = caSys
 	}
 	stmt := map[string]interface{}{"x5c": []interface{}{t.akCert(w).Raw, ca.Intermediate.Raw},
 		"alg": int64(-257), "sig": sig, "certInfo": certInfo, "pubArea": pubArea}
